@@ -175,7 +175,8 @@ example : ([1, 2, 3] : Bytes).length ≤ 0xffffffff := by decide
     added and never marked invalid returns the bytes of its first add and the latest trusted flag, and every `length`
     returns that block's size — from the cache or from disk, compressed or not, written or still queued
     (`specRun` lists the claims, `AllHold` says each reply satisfies its claim).
-    `_partial`: the history contains no restart after the first open, and retention is off (see OPEN below). -/
+    `_partial`: one session, retention off — the special case of `store_refines_map` below in which the retention-aware
+    claim is the unconditional one (`FS.lost` stays empty: Proofs/C16NoLoss.lean). -/
 theorem store_refines_map_partial (env : Env)
     (hrt : ∀ x : Bytes, x.length ≤ 0xffffffff → env.dec (env.enc x) = some x) (hne : ∀ x, env.enc x ≠ [])
     (o : Opts) (hk : o.keep = 0) (ops : List Op) (hops : ∀ op ∈ ops, op.isReopen = false ∧ op.sizeOK) :
@@ -198,10 +199,12 @@ example : ∀ op ∈ [Op.add (hashW blkA) 10 1 false blkA, .idle, .get (hashW bl
   simp only [List.mem_cons, List.not_mem_nil, or_false] at h
   rcases h with h | h | h <;> subst h <;> exact ⟨rfl, by simp [Op.sizeOK, blkA, mkBlock]⟩
 
-/-- The data-file half of the invariant, as a statement of its own: in every state reached in such a session, every
-    key that was added and never marked invalid has an index record; while it is unwritten its block is in the cache
-    (and the cache never evicts it); once written, the record's [fpos, fpos+blen) lies inside its data file, at or below
-    the append position of the current file, and decodes to the block. -/
+/-- The data-file half of the invariant, as a statement of its own (`Ref`, every option combination): every key that was
+    added and never marked invalid has an index record; while it is unwritten its block is in the cache (and the cache
+    never evicts it); once written — and unless its data-file number is in `FS.lost` — the record's [fpos, fpos+blen) lies
+    inside the file `BlockGet` opens for it (main directory, then oldat/), at or below the append position of the current
+    file, and decodes to the block; the current data file exists in the main directory. Every operation other than
+    a restart preserves it (the restart: `reopen_ref` in Proofs/C16Restart.lean). -/
 theorem data_file_invariant (env : Env)
     (hrt : ∀ x : Bytes, x.length ≤ 0xffffffff → env.dec (env.enc x) = some x) (hne : ∀ x, env.enc x ≠ [])
     (s : State) (sp : Spec) (h : Ref env s sp) (op : Op) (hno : op.isReopen = false) (hsz : op.sizeOK) :
@@ -317,21 +320,65 @@ theorem reopen_index_trusted (env : Env) (hfix : env.advInvalid = Gen.BlockDBFac
   obtain ⟨r, b1, b2, b3, b4, b5, b6⟩ := reopen_index_flags env hadv _ _ _ hC (by omega) hclosed o k e r0 he ht a1
   exact ⟨r0, r, a1, b1, by rw [b2]; exact hT k e r0 he ht a1, b3, b4, b5, b6⟩
 
-/-! ## retention (DataFilesKeep ≠ 0, backup of old files): the statement, and the known finding on the model -/
+/-! ## retention (DataFilesKeep ≠ 0, backup of old files): store_refines_map at full strength -/
 
-/-- OPEN — stated, NOT proved: store_refines_map at full strength, every option combination. "Within the configured
-    retention" is defined from the model's file set: `FS.lost` (ghost) collects the numbers of data files deleted by
-    `removeDatFile` without backup and of files shadowed by LoadBlockIndex's O_CREATE while the original sits in `oldat/`
-    (exactly the mechanism of the known finding `backup-shadowed-by-new-file`); `claimR` makes no claim for a key whose
-    written record points into such a file. With `keep = 0` in every session nothing is ever lost and this is
-    `store_refines_map_restarts` (proved). Decided on every generated history by the Go-map reference of the harness. -/
-def store_refines_map_retention_statement : Prop :=
-  ∀ (env : Env), (∀ x : Bytes, x.length ≤ 0xffffffff → env.dec (env.enc x) = some x) → (∀ x, env.enc x ≠ []) →
-    env.advInvalid = Gen.BlockDBFacts.advInvalid →
-    ∀ ops : List Op, (∀ op ∈ ops, Op.wf env op) → ops.length < 2^31 →
-      AllHold (specRunR env init {} ops) (run env init ops).2
+/-- store_refines_map, EVERY history and EVERY option combination: from the empty directory, any sequence of add / get /
+    length / mark-trusted / mark-invalid / idle-flush / close / reopen, the options changing from session to session (cache
+    size, compression, maximum data-file size, `DataFilesKeep` = any number, `DataFilesBackup` on or off) — every `get` of a
+    key that was added, never marked invalid and whose data is WITHIN THE CONFIGURED RETENTION returns the bytes of its first add
+    and the latest trusted flag, every `length` its size: from the cache, from the queue, from the data file in the main
+    directory or from its backup in oldat/, after any number of roll-overs and restarts.
+    "Within the configured retention" is defined from the model's file operations (`claimR` / `keyLost`,
+    Spec/BlockStoreMap.lean): no claim is made for a key whose written record points into a data file whose number is in the
+    ghost list `FS.lost` — a file that `removeDatFile` deleted without backup (roll-over or LoadBlockIndex clean-up with
+    `keep ≠ 0`), or a file that LoadBlockIndex shadowed by O_CREATE-ing a new file of the same number in the main directory
+    while the original sits in oldat/. The second case is exactly the known finding `backup-shadowed-by-new-file`
+    (`backup_shadowed_counterexample` below shows the unconditional claim is false there); nothing else is excluded.
+    The proof carries `Ref` (Proofs/C16Refine.lean) with the data file resolved as `BlockGet` does (`fileOf`: main directory,
+    then oldat/), "the current data file exists in the main directory", and `Keeps` (Proofs/C16Retain.lean): roll-over,
+    `removeDatFile`, `loadCleanup` and the O_CREATE leave every number that is not lost afterwards resolving to the same
+    bytes; `keyLost` is monotone, so a block cached from a lost file is never claimed later. -/
+theorem store_refines_map (env : Env)
+    (hrt : ∀ x : Bytes, x.length ≤ 0xffffffff → env.dec (env.enc x) = some x) (hne : ∀ x, env.enc x ≠ [])
+    (hfix : env.advInvalid = Gen.BlockDBFacts.advInvalid) (ops : List Op)
+    (hops : ∀ op ∈ ops, Op.wf env op) (hlen : ops.length < 2^31) :
+    AllHold (specRunR env init {} ops) (run env init ops).2 :=
+  restart_refinesR env ⟨hrt, hne⟩ (by rw [hfix]; exact fixed_code) ops hops hlen
+
+/-- The same with the codec the store really uses — the snappy model, exactly the environment `oracle_c16` runs and the
+    harness compares with the Go code (any header-hash function): no hypothesis about the codec is left. -/
+theorem store_refines_map_snappy (hash : Bytes → Bytes) (ops : List Op)
+    (hops : ∀ op ∈ ops, Op.wfPlain hash op) (hlen : ops.length < 2^31) :
+    AllHold (specRunR (snappyEnv hash Gen.BlockDBFacts.advInvalid) init {} ops)
+      (run (snappyEnv hash Gen.BlockDBFacts.advInvalid) init ops).2 := by
+  refine restart_refinesR _ (snappyEnv_ok hash _) fixed_code ops ?_ hlen
+  intro op hop
+  have h1 := hops op hop
+  cases op with
+  | add h height tx tr raw =>
+    obtain ⟨a1, a2, a3⟩ := h1
+    refine ⟨a1, by omega, ?_, a3⟩
+    have := Snappy.encode_length_le raw (by omega)
+    show (Snappy.encode raw).length ≤ 0xffffffff
+    omega
+  | _ => trivial
 
 def blk200 (tag : UInt8) : Bytes := mkBlock tag 200
+def optsK : Opts := ⟨1, 200, 1, false, false⟩
+/-- keep = 1, no backup: three 200-byte blocks go to data files 0, 1, 2; the second roll-over deletes file 0 -/
+def retentionHistory : List Op :=
+  [.reopen optsK, .add (hashW (blk200 1)) 1 1 false (blk200 1), .add (hashW (blk200 2)) 2 1 false (blk200 2),
+   .add (hashW (blk200 3)) 3 1 false (blk200 3), .idle, .get (hashW (blk200 1)), .get (hashW (blk200 2)),
+   .length (hashW (blk200 3)) true, .close, .reopen optsK, .get (hashW (blk200 2))]
+
+set_option maxRecDepth 1000000 in
+/-- the retention-aware specification makes real claims under retention: on this history (file 0 deleted by the second
+    roll-over) nothing is demanded for block 1, and blocks 2 and 3 — within `keep = 1` — are demanded in full, also after
+    the restart -/
+example : specRunR (toyEnv true) init {} retentionHistory
+    = [.nothing, .nothing, .nothing, .nothing, .nothing, .nothing, .data (blk200 2) false, .len 200, .nothing, .nothing,
+       .data (blk200 2) false] ∧ (run (toyEnv true) init retentionHistory).1.fs.lost = [0] := by decide
+
 def optsKB : Opts := ⟨1, 200, 1, true, false⟩
 /-- the known finding `backup-shadowed-by-new-file` as a model history: three 200-byte blocks in data files 0, 1, 2 (file 0
     is moved to oldat/), B and C marked invalid, restart, get A -/
@@ -341,7 +388,7 @@ def shadowHistory : List Op :=
    .reopen optsKB, .get (hashW (blk200 1))]
 
 set_option maxRecDepth 1000000 in
-/-- On the known finding the unconditional claim is FALSE of the model (and of the code: corpus/C16/backup-fallback-after-
+/-- The one exclusion of `store_refines_map` is necessary. On the known finding the unconditional claim is FALSE of the model (and of the code: corpus/C16/backup-fallback-after-
     invalid.json replays it): the durable map demands A's bytes, the store answers with a short read — and the retention
     claim `claimR` excludes exactly this `get`: file 0 is in `FS.lost` because the restart created a new, empty file 0
     in the main directory over the one in oldat/. -/
@@ -350,14 +397,5 @@ theorem backup_shadowed_counterexample :
     (run (toyEnv true) init shadowHistory).2.getLast? = some (.getErr .shortRead false) ∧
     (specRunR (toyEnv true) init {} shadowHistory).getLast? = some .nothing ∧
     (run (toyEnv true) init shadowHistory).1.fs.lost = [0] := by decide
-
-/-
-  OPEN: store_refines_map for `keep ≠ 0` — `store_refines_map_retention_statement` above. Proved: every history with
-        `keep = 0` (`store_refines_map_restarts`), the index-file half for ALL option combinations (`reopen_index`,
-        `reopen_index_trusted`, `append_position_invariant`, `flush_writes_everything`). Missing for retention: the data-file
-        half `Ref` with the file looked up in the main directory first, then oldat/ (as BlockGet does), `maybeRoll` /
-        `loadCleanup` moving or deleting files, and the refinement relation taken against the specification with the keys
-        of lost files tainted (`Ref` is antitone in taint, `keyLost` is monotone along every operation).
--/
 
 end GocoinV.Props.C16
